@@ -690,4 +690,24 @@ theorem collected_perm (jar : Jar) (store : Store) (h : Rel jar store) (host : S
   unfold covering
   exact ((triples_perm jar store h).filter _).map _
 
+/-! ### G. histories -/
+
+/-- a history as the model sees it (parsed, canonical rendering). -/
+def parsed (hist : List Response) : List (List (Str × Str) × Option Str) :=
+  hist.map fun r => (r.cookies, r.domain)
+
+theorem jarOf_parsed (hist : List Response) :
+    jarOf (parsed hist) = hist.foldl (fun jar r => add jar (morselsOf r.cookies r.domain)) [] := by
+  unfold jarOf parsed
+  rw [List.foldl_map]
+
+/-- evaluation helper (`mergeSort` is by well-founded recursion, so `decide` goes through the
+    already-sorted case). -/
+theorem getPairs_of_sorted (jar : Jar) (host : Str) (L : List (Str × Str))
+    (hne : host.isEmpty = false) (hc : collected jar host = L)
+    (hs : L.Pairwise fun a b => pairLe a b = true) : getPairs jar host = L := by
+  unfold getPairs
+  rw [hne, hc]
+  exact List.mergeSort_of_pairwise hs
+
 end WS.Lemmas.Cookie
